@@ -6,7 +6,7 @@ From Coq Require Import NArith List String Bool Ascii.
 From Falco Require Import Base.TablesBase Model.ScopeMask Model.LintTables Model.LintOps Model.TablesDomain Model.InterpAssign Model.InterpVars.
 From Falco Require Import Gen.KnownGaps.
 From Falco Require Import Gen.LintConsts Gen.LintVars Gen.LintDyn Gen.LintFuncs Gen.RefVars Gen.RefFuncs Gen.InterpFuncs.
-From Falco Require Import Gen.ObsVars Gen.ObsFuncs Gen.ObsStmts Gen.ObsOps Gen.ObsWide Gen.ObsCoerce Gen.ObsInferred.
+From Falco Require Import Gen.ObsVars Gen.ObsFuncs Gen.ObsStmts Gen.ObsOps Gen.ObsWide Gen.ObsCoerce Gen.ObsInferred Gen.ObsIdArgs.
 Import ListNotations.
 Local Open Scope N_scope.
 Local Open Scope string_scope.
@@ -132,6 +132,10 @@ Definition gaps_ops_left : list gap_row :=
     ++ row_if "opl-interp-model" op at_ (N.lxor (opl_bits (interp_op_model_left op lty lp)) interp)
     ++ row_if "opl-interp" op at_ (N.ldiff lint interp) end) obs_ops_left.
 
+(* identifier arguments: one row per (function, signature); bit 9 * identifier index + scope index *)
+Definition gaps_idargs : list gap_row :=
+  flat_map (fun r => match r with (fn, i, lint, interp) => row_if "idarg-interp" fn (digit i) (N.ldiff lint interp) end) obs_idargs.
+
 (* a value where a type is expected *)
 Definition gaps_coerce : list gap_row :=
   flat_map (fun r => match r with (cx, e, lint, interp) =>
@@ -151,13 +155,14 @@ Definition gaps_inferred : list gap_row :=
   inferred_gap_rows pair_masks obs_inferred ++ inferred_gap_rows triple_masks obs_inferred3.
 
 Definition all_gap_rows : list gap_row :=
-  gaps_tables ++ gaps_func_table ++ gaps_vars ++ gaps_var_types ++ gaps_funcs ++ gaps_stmts ++ gaps_ops ++ gaps_wide ++ gaps_variants ++ gaps_ops_left ++ gaps_coerce ++ gaps_inferred.
+  gaps_tables ++ gaps_func_table ++ gaps_vars ++ gaps_var_types ++ gaps_funcs ++ gaps_stmts ++ gaps_ops ++ gaps_wide ++ gaps_variants ++ gaps_ops_left ++ gaps_coerce ++ gaps_idargs ++ gaps_inferred.
 
 Definition domain_sizes : list (string * N) :=
   [("variables", N.of_nat (List.length lint_var_flat)); ("variable rows", N.of_nat (List.length obs_vars));
    ("functions", N.of_nat (List.length lint_func_flat)); ("function rows", N.of_nat (List.length obs_funcs));
    ("statement rows", N.of_nat (List.length obs_stmts)); ("operator rows", N.of_nat (List.length obs_ops));
    ("operator cells per row", N.of_nat (List.length op_cells_existing)); ("masks", N.of_nat (List.length masks45));
-   ("wide masks", N.of_nat (List.length obs_wide_masks)); ("coercion rows", N.of_nat (List.length obs_coerce)); ("left-provenance rows", N.of_nat (List.length obs_ops_left));
+   ("wide masks", N.of_nat (List.length obs_wide_masks)); ("coercion rows", N.of_nat (List.length obs_coerce)); ("identifier-argument rows", N.of_nat (List.length obs_idargs));
+   ("identifier-argument cells per row", N.of_nat (List.length idarg_cells)); ("left-provenance rows", N.of_nat (List.length obs_ops_left));
    ("left-provenance cells per row", N.of_nat (List.length op_cells_left));
    ("inferred-scope rows (x 36 pairs)", N.of_nat (List.length obs_inferred)); ("inferred-scope rows (x 84 triples)", N.of_nat (List.length obs_inferred3)); ("wide rows", N.of_nat (List.length obs_vars_wide + List.length obs_funcs_wide + List.length obs_stmts_wide))].
